@@ -279,6 +279,7 @@ type X struct {
 	OpaqueResults bool
 	SanitizeBad   string
 	sharedOpts    map[string]z.ExecOption
+	destHook      func(dest reflect.Value, data any) // arranges the destination of a Parse call after pre-fill (e.g. storage shared with the input)
 }
 
 func sharedOptKey(o *OptSpec) string { return o.Key + "=" + o.Val.String() }
@@ -422,6 +423,9 @@ func (x *X) Exec(tag string, op *Op) *Result {
 			populate(dest.Elem(), *op.Pre)
 		}
 		data, cleanup = x.makeInput(op, b)
+		if x.destHook != nil {
+			x.destHook(dest, data)
+		}
 	}
 	defer cleanup()
 	rec.Root = dest
